@@ -6,6 +6,8 @@ import (
 	"fmt"
 	"sort"
 	"strings"
+
+	"github.com/preslavrachev/gomjml/mjml"
 )
 
 // parseNodeTree turns a (strict) MJML string into the harness's Node tree.
@@ -522,6 +524,85 @@ func runC09(res *Result, tier string, seed int64, replay string) {
 				}
 				return n
 			}
+			// an own value that happens to EQUAL the component's built-in default is still the element's own value: it wins over
+			// every lower source (mj-all, a value handed down by the parent component) exactly as any other own value does.  Judged
+			// by uniformity: where own="v1" renders v1 and own="v2" renders v2 (the attribute is copied verbatim), own="<default>"
+			// must render the default at the same places — in the plain context, with mj-all supplying another value, and (for
+			// child elements) with every attribute of the parent component set
+			if dflt := builtinDefault(base.MJML(), tag, attr); dflt != "" && v1 != v2 && dflt != v1 && dflt != v2 && !strings.ContainsAny(dflt, "<>\"&") {
+				ctxs := map[string]*Node{"plain": base}
+				if v3 := thirdValue(v1, v2, dflt); v3 != "" {
+					ctxs["under-mj-all"] = withHead(func(at, d *Node) { at.Kids = append(at.Kids, mk("mj-all", attr, v3)) })
+				}
+				if par := parentLoaded(base, tag); par != nil {
+					ctxs["parent-attributes-set"] = par
+				}
+				for cn, ctx := range ctxs {
+					own := func(v string) string {
+						d := ctx.Clone()
+						e := find(d)
+						if e == nil {
+							return ""
+						}
+						e.Set(attr, v)
+						return bodyFor(d)
+					}
+					b1, b2, bd := own(v1), own(v2), own(dflt)
+					n1, n2, nd := normColour(v1), normColour(v2), normColour(dflt)
+					key := tag + "/" + attr + "/own-value-equal-to-built-in-default(" + cn + ")"
+					if b1 == "" || bd == "" || strings.Contains(bodyFor(ctx), n1) || !strings.Contains(b1, n1) || strings.ReplaceAll(b1, n1, n2) != b2 {
+						res.Count("cell=skipped(not-copied-verbatim)")
+						continue
+					}
+					count++
+					res.Case(key, true)
+					if strings.ReplaceAll(b1, n1, nd) == bd {
+						res.Count("cell=holds")
+						continue
+					}
+					// a renderer may leave a declaration out for particular VALUES (font-weight:normal …): that is still a function of
+					// the winning value.  What must not happen is that a LOWER source's value shows where the own value belongs.
+					want := strings.ReplaceAll(b1, n1, nd)
+					at := firstDiff(want, bd)
+					// the differing middle parts (common prefix and suffix cut off), widened to the enclosing declaration / attribute
+					suf := 0
+					for suf < len(want)-at && suf < len(bd)-at && want[len(want)-1-suf] == bd[len(bd)-1-suf] {
+						suf++
+					}
+					gotMid := bd[at : len(bd)-suf]
+					widen := func(b string, lo, hi int) string {
+						for lo > 0 && !strings.ContainsRune(";\"", rune(b[lo-1])) {
+							lo--
+						}
+						for hi < len(b) && !strings.ContainsRune(";\"", rune(b[hi])) {
+							hi++
+						}
+						return b[lo:hi]
+					}
+					lowerShows := false
+					if gotMid != "" {
+						gotW, wantW := widen(bd, at, len(bd)-suf), widen(want, at, len(want)-suf)
+						for _, lv := range lowerValues(ctx, tag) {
+							if lv != "" && lv != nd && strings.Contains(gotW, normColour(lv)) && !strings.Contains(wantW, normColour(lv)) {
+								lowerShows = true
+							}
+						}
+					}
+					if !lowerShows {
+						res.Count("cell=holds(declaration-left-out-for-this-value)")
+						continue
+					}
+					res.Count("cell=fails")
+					if !reported[key] {
+						reported[key] = true
+						d := ctx.Clone()
+						find(d).Set(attr, dflt)
+						res.Violate(Violation{Sig: key + "|source-dependent", Kind: "cell",
+							What:  fmt.Sprintf("<%s %s=%q>: the element's own value equals the built-in default and is not used as its own value (context %s): expected …%s…, got …%s…", tag, attr, dflt, cn, around(want, at), around(bd, at)),
+							Input: map[string]string{"source": d.MJML()}})
+					}
+				}
+			}
 			// single levels
 			noop(withHead(func(at, d *Node) {
 				at.Kids = append(at.Kids, mk("mj-class", "name", "m1", attr, v1))
@@ -675,3 +756,135 @@ func runC09(res *Result, tier string, seed int64, replay string) {
 }
 
 func init() { register("C09", runC09) }
+
+
+// builtinDefault asks the real component for its built-in default of an attribute (GetDefaultAttribute on the first component
+// with that tag in the document's tree)
+func builtinDefault(src, tag, attr string) string {
+	ast, err := mjml.ParseMJML(src)
+	if err != nil {
+		return ""
+	}
+	var root mjml.Component
+	if p := safely(func() { root, err = mjml.NewFromAST(ast) }); p != nil || err != nil || root == nil {
+		return ""
+	}
+	var found mjml.Component
+	var walk func(c mjml.Component)
+	walk = func(c mjml.Component) {
+		if found != nil || c == nil {
+			return
+		}
+		if c.GetTagName() == tag {
+			found = c
+			return
+		}
+		for _, k := range childrenOf(c) {
+			walk(k)
+		}
+	}
+	if r, ok := root.(*mjml.MJMLComponent); ok && r.Body != nil {
+		walk(r.Body)
+	}
+	if found == nil {
+		return ""
+	}
+	if d, ok := found.(interface{ GetDefaultAttribute(string) string }); ok {
+		v := ""
+		safely(func() { v = d.GetDefaultAttribute(attr) })
+		return v
+	}
+	return ""
+}
+
+
+// normColour: a three-digit hex colour as the renderer writes it (six digits)
+func normColour(v string) string {
+	if len(v) == 4 && v[0] == '#' {
+		ok := true
+		for _, c := range v[1:] {
+			if !strings.ContainsRune("0123456789abcdefABCDEF", c) {
+				ok = false
+			}
+		}
+		if ok {
+			return "#" + strings.Repeat(string(v[1]), 2) + strings.Repeat(string(v[2]), 2) + strings.Repeat(string(v[3]), 2)
+		}
+	}
+	return v
+}
+
+// thirdValue: a value of the same kind as v1 that differs from v1, v2 and the default ("" = none known)
+func thirdValue(v1, v2, dflt string) string {
+	var cands []string
+	switch {
+	case strings.HasPrefix(v1, "#"):
+		cands = []string{"#0a0b0c", "#c0ffee"}
+	case strings.HasSuffix(v1, "px") && !strings.Contains(v1, " "):
+		cands = []string{"23px", "37px"}
+	case strings.HasSuffix(v1, "%"):
+		cands = []string{"55%", "35%"}
+	case strings.Contains(v1, "px "):
+		cands = []string{"5px 11px"}
+	}
+	for _, c := range cands {
+		if c != v1 && c != v2 && c != dflt {
+			return c
+		}
+	}
+	return ""
+}
+
+// parentLoaded: for a child element (mj-social-element, mj-navbar-link, mj-accordion-element / -title / -text,
+// mj-carousel-image) the base document with every attribute of its parent component set to a test value
+func parentLoaded(base *Node, tag string) *Node {
+	parentOf := map[string]string{"mj-social-element": "mj-social", "mj-navbar-link": "mj-navbar", "mj-accordion-element": "mj-accordion",
+		"mj-accordion-title": "mj-accordion", "mj-accordion-text": "mj-accordion", "mj-carousel-image": "mj-carousel"}
+	pt, ok := parentOf[tag]
+	if !ok {
+		return nil
+	}
+	d := base.Clone()
+	var p *Node
+	d.Walk(func(x *Node) {
+		if p == nil && x.Tag == pt {
+			p = x
+		}
+	})
+	if p == nil {
+		return nil
+	}
+	for _, a := range allowedSorted(pt) {
+		if a[0] == "css-class" || a[0] == "mj-class" || a[0] == "mode" || a[0] == "hamburger" || a[0] == "thumbnails" {
+			continue
+		}
+		if _, has := p.Get(a[0]); has {
+			continue
+		}
+		_, v2 := testValues(a[0], a[1])
+		if v2 != "" {
+			p.Set(a[0], v2)
+		}
+	}
+	return d
+}
+
+
+// lowerValues: every attribute value written in the document's head (mj-all, tag defaults, classes) or on the parent component
+// of `tag` — the values of lower-priority sources in this context
+func lowerValues(ctx *Node, tag string) []string {
+	var out []string
+	parentOf := map[string]string{"mj-social-element": "mj-social", "mj-navbar-link": "mj-navbar", "mj-accordion-element": "mj-accordion",
+		"mj-accordion-title": "mj-accordion", "mj-accordion-text": "mj-accordion", "mj-carousel-image": "mj-carousel"}
+	ctx.Walk(func(x *Node) {
+		inHead := x.Tag == "mj-all" || x.Tag == "mj-class"
+		if inHead || x.Tag == parentOf[tag] {
+			for _, a := range x.Attrs {
+				if a[0] != "name" {
+					out = append(out, a[1])
+				}
+			}
+		}
+	})
+	return out
+}
